@@ -4,8 +4,8 @@
   `EG/Generated/TextSrc.lean` is written by `tools/tr_textsrc.py` from /repo's Rust text on every run of a check.
   This file proves `<name>_src_eq_model` for the functions C14 rests on — `StrGlyphMapping::{index, contains}`
   (src/mono_font/mapping.rs), `MonoFont::glyph`, `DecorationDimensions::get_bounding_box` (src/mono_font/mod.rs),
-  `DecorationColor::effective_color` (src/text/mod.rs), `MonoTextStyle::{draw_decorations, draw_string,
-  draw_whitespace}` (src/mono_font/mono_text_style.rs) — against `EG/Model/Font.lean`, and restates C14's `index` and
+  `DecorationColor::effective_color` (src/text/mod.rs), `MonoTextStyle::{line_elements, draw_string_binary,
+  draw_decorations, draw_string, draw_whitespace}` (src/mono_font/mono_text_style.rs) — against `EG/Model/Font.lean`, and restates C14's `index` and
   cell-position claims over the generated functions (`src_*`).
 
   A draw target is the list of calls made on it (`DrawTargetD`); a function with a `target: &mut D` parameter
@@ -17,8 +17,13 @@
   * `get_bounding_box` / `draw_string`'s transparent arm add a `Size` to a `Point` (`as i32` behind a
     `debug_assert!`): equal when the decoration offsets and the advance `(cw + spacing) * n` fit `i32`, and
     `text.chars().count() as u32` does not truncate (`DrawFits`).
-  NOT regenerated (bound by the prelude to the hand model, see its header): `draw_string_binary` with
-  `line_elements`, `StrGlyphMapping::chars`, the image draw of a glyph, `MonoFontDrawTarget`'s lowering.
+  * `line_elements` casts `character_size.width` / `character_spacing` with `as i32` (`AdvanceFits`); its `from_fn`
+    closure is tied step by step to the hand model's `LineIt.next` (`line_elements_step`), the `for` loop of
+    `draw_string_binary` (with its `return` at `Done`) to the hand model's `drawStringBinary` for every `fuel >=
+    2 * len + 1` (`loop_src_eq_model`, `draw_string_binary_src_eq_model`; guard `GlyphsFit` = `GlyphFits` for
+    every character of the text).
+  NOT regenerated (bound by the prelude to the hand model, see its header): `StrGlyphMapping::chars`, the image draw
+  of a glyph (`Image_draw`), `MonoFontDrawTarget`'s lowering.
 -/
 import EG.Generated.TextSrc
 import EG.Props.C15.Generated
@@ -110,6 +115,157 @@ theorem draw_decorations_src_eq_model (s : MonoTextStyle) (w : Nat) (pos : Pt) (
     get_bounding_box_src_eq_model ⟨s.font.f.ulOff, s.font.f.ulH⟩ _ _ h2, DrawTargetD_fill_solid]
   cases s.st.strikethrough.effective s.st.textColor <;> cases s.st.underline.effective s.st.textColor <;> simp
 
+/-! ### `line_elements`, `draw_string_binary` -/
+
+/-- `character_size.width as i32` and `character_spacing as i32` do not wrap -/
+def AdvanceFits (f : Font.MonoFont) : Prop := f.cw ≤ 2147483647 ∧ f.spacing ≤ 2147483647
+instance (f : Font.MonoFont) : Decidable (AdvanceFits f) := by unfold AdvanceFits; exact inferInstance
+example : AdvanceFits ⟨96, 54, 6, 9, 0, 6, 10, 1, 4, 1, fun _ => 0⟩ := by decide
+
+/-- the captured variables of the `from_fn` closure of `line_elements` (`position`, `add_spacing`, `next_char`,
+`chars`) for a state of the hand model's iterator (`rest` = `next_char` followed by `chars`) -/
+def stOf (it : LineIt) : Pt × Bool × Option Nat × List Nat := (it.pos, it.addSpacing, it.rest.head?, it.rest.tail)
+
+theorem line_elements_init (s : MonoTextStyle) (pos : Pt) (text : List Nat) :
+    TextSrc.MonoTextStyle_line_elements s pos text =
+      ⟨stOf (lineIt pos text), (TextSrc.MonoTextStyle_line_elements s pos text).step⟩ := rfl
+
+/-- one call of the regenerated closure = one `LineIt.next` of the hand model -/
+theorem line_elements_step (s : MonoTextStyle) (pos0 : Pt) (text0 : List Nat) (it : LineIt)
+    (h : AdvanceFits s.font.f) :
+    (TextSrc.MonoTextStyle_line_elements s pos0 text0).step (stOf it) =
+      (some (it.next s.font.f).1, stOf (it.next s.font.f).2) := by
+  obtain ⟨h1, h2⟩ := h
+  obtain ⟨pos, rest, sp⟩ := it
+  unfold TextSrc.MonoTextStyle_line_elements stOf LineIt.next
+  simp only [from_fn_mk, u32_as_i32, Size_width, MonoFont_character_size, MonoFont_character_spacing,
+    MonoTextStyle_font, h1, h2, ↓reduceIte, iter_next, Point_set_x, Point_x, Point_y, i32_add, option_is_some]
+  cases sp
+  · cases rest with
+    | nil => rfl
+    | cons c cs => cases cs <;> rfl
+  · rfl
+
+/-- the body of the `for` loop of `draw_string_binary` as the translator writes it -/
+def loopBody (self : MonoTextStyle) : MonoFontDrawTarget → Pt × Elem → ForStep MonoFontDrawTarget (Pt × MonoFontDrawTarget) :=
+  fun target (p, element) =>
+      (match element with
+        | LineElement.Char c =>
+            let glyph := TextSrc.MonoFont_glyph (MonoTextStyle_font self) c
+            let target := Image_draw (Image_new glyph p) target
+            ForStep.next target
+        | LineElement.Spacing =>
+            if u32_gt (MonoFont_character_spacing (MonoTextStyle_font self)) (0 : Nat) then
+              let target := (if option_is_some (MonoTextStyle_background_color self) then
+                let target := MonoFontDrawTarget_fill_solid target (RectSrc.new p (RectSrc.Size_new (MonoFont_character_spacing (MonoTextStyle_font self)) (Size_height (MonoFont_character_size (MonoTextStyle_font self))))) BinaryColor.Off
+                target
+              else
+                target)
+              ForStep.next target
+            else
+              ForStep.next target
+        | LineElement.Done =>
+            ForStep.ret (p, target))
+
+theorem draw_string_binary_unfold (fuel : Nat) (s : MonoTextStyle) (text : List Nat) (pos : Pt)
+    (t : MonoFontDrawTarget) :
+    TextSrc.MonoTextStyle_draw_string_binary fuel s text pos t =
+      (match for_from_fn fuel (TextSrc.MonoTextStyle_line_elements s pos text) t (loopBody s) with
+        | ForStep.ret r => r
+        | ForStep.next t => (pos, t)) := rfl
+
+theorem calls_nil (t : MonoFontDrawTarget) : MonoFontDrawTarget_calls t [] = t := by
+  cases t; simp [MonoFontDrawTarget_calls]
+
+theorem calls_calls (t : MonoFontDrawTarget) (a b : List BCall) :
+    MonoFontDrawTarget_calls (MonoFontDrawTarget_calls t a) b = MonoFontDrawTarget_calls t (a ++ b) := by
+  simp [MonoFontDrawTarget_calls, List.flatMap_append, List.append_assoc]
+
+/-- a character / spacing element: the loop goes on with the hand model's calls of that element appended -/
+theorem loopBody_char (s : MonoTextStyle) (t : MonoFontDrawTarget) (p : Pt) (c : Nat) (hg : GlyphFits s.font.f c) :
+    loopBody s t (p, Elem.char c) =
+      ForStep.next (MonoFontDrawTarget_calls t (s.font.f.elemCalls s.font.atlas s.st.bgColor.isSome (p, Elem.char c))) := by
+  have key : ∀ (m : TextSrcPrelude.MonoFont) (a : Rect),
+      Image_draw (Image_new ⟨MonoFont_image m, a⟩ p) t = MonoFontDrawTarget_calls t
+        (if m.f.areaDrawable a then [BCall.fillContiguous ⟨p, a.size⟩ (cellBits m.atlas a)] else []) :=
+    fun _ _ => rfl
+  unfold loopBody
+  simp only [MonoTextStyle_font, glyph_src_eq_model _ _ hg, key]
+  rfl
+
+theorem loopBody_spacing (s : MonoTextStyle) (t : MonoFontDrawTarget) (p : Pt) :
+    loopBody s t (p, Elem.spacing) =
+      ForStep.next (MonoFontDrawTarget_calls t (s.font.f.elemCalls s.font.atlas s.st.bgColor.isSome (p, Elem.spacing))) := by
+  unfold loopBody
+  simp only [MonoTextStyle_font, MonoFont_character_spacing, u32_gt, option_is_some, MonoTextStyle_background_color,
+    MonoFontDrawTarget_fill_solid, BinaryColor.Off, RectSrc.new, RectSrc.Size_new, Rectangle_mk, Size_mk, Size_height,
+    MonoFont_character_size, MonoFont.elemCalls, decide_eq_true_eq]
+  by_cases h1 : s.font.f.spacing > 0 <;> by_cases h2 : s.st.bgColor.isSome = true <;> simp [h1, h2, calls_nil]
+
+theorem loopBody_done (s : MonoTextStyle) (t : MonoFontDrawTarget) (p : Pt) :
+    loopBody s t (p, Elem.done) = ForStep.ret (p, t) := rfl
+
+/-- the regenerated loop over the regenerated iterator, from any state of the hand model's iterator and with any
+fuel: it returns at the first `Done` among the first `fuel` items of the hand model's iterator, with the hand model's
+calls of those items appended to the target -/
+theorem loop_src_eq_model (s : MonoTextStyle) (pos0 : Pt) (text0 : List Nat) (h : AdvanceFits s.font.f) :
+    ∀ (n : Nat) (it : LineIt) (t : MonoFontDrawTarget), (∀ c ∈ it.rest, GlyphFits s.font.f c) →
+      for_from_fn n ⟨stOf it, (TextSrc.MonoTextStyle_line_elements s pos0 text0).step⟩ t (loopBody s) =
+        (match (it.toListFuel s.font.f n).find? (fun e => e.2 == Elem.done) with
+          | some (p, _) => ForStep.ret (p, MonoFontDrawTarget_calls t
+              ((it.toListFuel s.font.f n).flatMap (s.font.f.elemCalls s.font.atlas s.st.bgColor.isSome)))
+          | none => ForStep.next (MonoFontDrawTarget_calls t
+              ((it.toListFuel s.font.f n).flatMap (s.font.f.elemCalls s.font.atlas s.st.bgColor.isSome)))) := by
+  intro n
+  have e1 : (Elem.spacing == Elem.done) = false := by decide
+  have e2 : ∀ c, (Elem.char c == Elem.done) = false := fun c => by simp
+  induction n with
+  | zero => intro it t _; simp [for_from_fn, LineIt.toListFuel, calls_nil]
+  | succ n ih =>
+    intro it t hg
+    obtain ⟨pos, rest, sp⟩ := it
+    unfold for_from_fn
+    simp only [line_elements_step s pos0 text0 _ h]
+    cases sp with
+    | true =>
+      have hi := ih ⟨⟨pos.x + (s.font.f.spacing : Int), pos.y⟩, rest, false⟩
+        (MonoFontDrawTarget_calls t (s.font.f.elemCalls s.font.atlas s.st.bgColor.isSome (pos, Elem.spacing))) hg
+      simp only [LineIt.next, ↓reduceIte, loopBody_spacing, LineIt.toListFuel, hi, List.find?_cons, List.flatMap_cons,
+        calls_calls, e1]
+    | false =>
+      cases rest with
+      | nil =>
+        simp [LineIt.next, loopBody_done, LineIt.toListFuel, MonoFont.elemCalls, calls_nil]
+      | cons c cs =>
+        have hi := ih ⟨⟨pos.x + (s.font.f.cw : Int), pos.y⟩, cs, !cs.isEmpty⟩
+          (MonoFontDrawTarget_calls t (s.font.f.elemCalls s.font.atlas s.st.bgColor.isSome (pos, Elem.char c)))
+          (fun c' hc' => hg c' (List.mem_cons_of_mem _ hc'))
+        simp only [LineIt.next, Bool.false_eq_true, ↓reduceIte, loopBody_char s t pos c (hg c List.mem_cons_self), LineIt.toListFuel, hi,
+          List.find?_cons, List.flatMap_cons, calls_calls, e2]
+
+/-- every character of the text designates a glyph whose index and cell origin the casts of `glyph` can carry -/
+def GlyphsFit (f : Font.MonoFont) (text : List Nat) : Prop := ∀ c ∈ text, GlyphFits f c
+instance (f : Font.MonoFont) (text : List Nat) : Decidable (GlyphsFit f text) := by unfold GlyphsFit; exact inferInstance
+example : GlyphsFit ⟨96, 54, 6, 9, 0, 6, 10, 1, 4, 1, fun c => c - 32⟩ [72, 105, 33] := by decide
+
+/-- `draw_string_binary` (with `line_elements`) = the hand model's `drawStringBinary`, for every fuel that covers the
+`2 * len + 1` line elements. -/
+theorem draw_string_binary_src_eq_model (fuel : Nat) (s : MonoTextStyle) (text : List Nat) (pos : Pt)
+    (t : MonoFontDrawTarget) (hf : 2 * text.length + 1 ≤ fuel) (h : AdvanceFits s.font.f)
+    (hg : GlyphsFit s.font.f text) :
+    TextSrc.MonoTextStyle_draw_string_binary fuel s text pos t =
+      ((s.font.f.drawStringBinary s.font.atlas s.st.bgColor.isSome text pos).2,
+       MonoFontDrawTarget_calls t (s.font.f.drawStringBinary s.font.atlas s.st.bgColor.isSome text pos).1) := by
+  rw [draw_string_binary_unfold, line_elements_init, loop_src_eq_model s pos text h fuel (lineIt pos text) t hg]
+  unfold MonoFont.drawStringBinary
+  have e1 : (lineIt pos text).toListFuel s.font.f fuel = lineElements s.font.f pos text := by
+    rw [lineElements_eq_lineSpec]; exact toListFuel_eq_lineSpec s.font.f text pos fuel hf
+  rw [e1]
+  dsimp only
+  cases (lineElements s.font.f pos text).find? (fun e => e.2 == Elem.done) with
+  | none => rfl
+  | some pe => obtain ⟨p, e⟩ := pe; rfl
+
 /-! ### `draw_whitespace`, `draw_string` -/
 
 theorem draw_whitespace_src_eq_model (s : MonoTextStyle) (w : Nat) (p : Pt) (bl : Font.Baseline) (target : List Call)
@@ -140,9 +296,10 @@ theorem i32_as_u32_of_gt (a b : Int) (h : a > b) : i32_as_u32 (a - b) = (a - b).
 
 /-- `<MonoTextStyle as TextRenderer>::draw_string` = the hand model's `drawString`: the returned position and the
 calls appended to the target. -/
-theorem draw_string_src_eq_model (s : MonoTextStyle) (text : List Nat) (p : Pt) (bl : Font.Baseline) (target : List Call)
-    (h : DrawFits s.font.f text.length) :
-    TextSrc.MonoTextStyle_TextRenderer_draw_string s text p bl target =
+theorem draw_string_src_eq_model (fuel : Nat) (s : MonoTextStyle) (text : List Nat) (p : Pt) (bl : Font.Baseline)
+    (target : List Call) (hf : 2 * text.length + 1 ≤ fuel) (h : DrawFits s.font.f text.length)
+    (ha : AdvanceFits s.font.f) (hg : GlyphsFit s.font.f text) :
+    TextSrc.MonoTextStyle_TextRenderer_draw_string fuel s text p bl target =
       ((s.font.f.drawString s.font.atlas s.st text p bl).2,
        target ++ (s.font.f.drawString s.font.atlas s.st text p bl).1) := by
   obtain ⟨h1, h2, h3⟩ := h
@@ -150,7 +307,7 @@ theorem draw_string_src_eq_model (s : MonoTextStyle) (text : List Nat) (p : Pt) 
     unfold FitsI32 RectSrc.Size_new; simp only [Size_mk]; omega
   unfold TextSrc.MonoTextStyle_TextRenderer_draw_string MonoFont.drawString
   simp only [baseline_offset_src_eq_model, draw_decorations_src_eq_model _ _ _ _ h3, MonoTextStyle_background_color,
-    MonoTextStyle_text_color, MonoTextStyle_draw_string_binary, MonoFontDrawTarget_new, MonoFontDrawTarget_into_parent,
+    MonoTextStyle_text_color, draw_string_binary_src_eq_model fuel s text _ _ hf ha hg, MonoFontDrawTarget_new, MonoFontDrawTarget_into_parent,
     MonoFontDrawTarget_calls, Both, Foreground, Background, usize_as_u32, iter_count, str_chars, Nat.mod_eq_of_lt h1,
     u32_mul, u32_add, Size_width, MonoFont_character_size, MonoFont_character_spacing, MonoTextStyle_font,
     Point_add_Size_src_eq_model _ _ hfit, i32_gt, i32_sub, i32_add, Point_x, Point_y, decide_eq_true_eq,
